@@ -411,6 +411,14 @@ pub fn c12(a: &Args, rep: &mut Report) {
         }
         rep.count("inputs_with_all_masks_enumerated", 1);
     });
+    large_cases(a, rep, "C12", &[20000, 60000, 60000], &[20000, 60000, 250000, 250000], |c, rep| {
+        let mut c = c.clone();
+        if c.n() % 2 == 0 {
+            let mut r = Rng::stream("C12largemask", &[c.hash()]);
+            c.mask = Some(gen_mask(c.n(), &mut r));
+        }
+        one_c12("C12", &c, rep)
+    });
 }
 
 // ------------------------------------------------------------------------------------------------
@@ -561,5 +569,13 @@ pub fn c13(a: &Args, rep: &mut Report) {
         let mut c = gen_case("C13", &a.tier, a.seed, k, &o);
         with_random_mask("C13mask", a, k, &mut c, 2);
         one_c13("C13", &c, rep);
+    });
+    large_cases(a, rep, "C13", &[20000, 40000], &[20000, 60000, 150000], |c, rep| {
+        let mut c = c.clone();
+        if c.n() % 2 == 0 {
+            let mut r = Rng::stream("C13largemask", &[c.hash()]);
+            c.mask = Some(gen_mask(c.n(), &mut r));
+        }
+        one_c13("C13", &c, rep)
     });
 }
